@@ -183,6 +183,31 @@ def run_documents(ctx: common.Ctx, prop_sigs, n_quick: int = 25, n_thorough: int
             attr, val = _new_value(ctx.rng, tok)
             before = [t.raw_text for t in toks]
             i = next(k for k, t in enumerate(toks) if t is tok)
+            prev_indent = None
+            if tok.RULE == 'BLOCK_COMMENT':
+                # sometimes first give the comment another indentation through its raw text, then assign as planned
+                if ctx.rng.random() < 0.4:
+                    try:
+                        tok.raw_text = ctx.rng.choice(['\t; re\n\t; written', '  ;x', '      ; y'])
+                        before = [t.raw_text for t in toks]
+                    except Exception:
+                        pass
+                prev_indent = type(tok).from_raw_text(tok.raw_text).indent
+            # a refused raw text (outside the token type's language) must leave the document as it was
+            bad_text = {'DATE': '2021-02-30', 'NUMBER': '12x', 'BOOL': 'true', 'ESCAPED_STRING': 'no quotes'}.get(tok.RULE)
+            if bad_text is not None and ctx.rng.random() < 0.5:
+                printed0 = gen_docs.print_model(f)
+                try:
+                    tok.raw_text = bad_text
+                    refused = False
+                except Exception:
+                    refused = True
+                if refused and (gen_docs.print_model(f) != printed0 or tok.raw_text != before[i]):
+                    ctx.monitor_failure('C02:doc-refused-assignment-wrote', f'raw_text = {bad_text!r} on token {i} ({tok.RULE}) was refused '
+                                        f'but the token text changed', {'lf': lf, 'text': text, 'assignments': hist})
+                    break
+                if not refused:
+                    before = [t.raw_text for t in toks]
             try:
                 setattr(tok, attr, val)
             except Exception as e:      # out-of-domain value for this token type: not this property's concern
@@ -191,6 +216,24 @@ def run_documents(ctx: common.Ctx, prop_sigs, n_quick: int = 25, n_thorough: int
             n_assign += 1
             hist.append((i, tok.RULE, attr, repr(val)))
             after = list(store)
+            if 'C02' in prop_sigs and hasattr(type(tok), 'from_raw_text'):
+                # the new raw text is the rendering of the token's state: re-reading it gives the same value (and, for
+                # comments, the indent the token had - a value assignment must not re-indent, an indent one not re-word)
+                try:
+                    fresh = type(tok).from_raw_text(tok.raw_text)
+                    same = (getattr(fresh, 'value', None) == getattr(tok, 'value', None)
+                            and getattr(fresh, 'indent', None) == getattr(tok, 'indent', None))
+                except Exception as e:
+                    same = False
+                if not same:
+                    ctx.monitor_failure('C02:doc-state-vs-text', f'after {attr} assignment on token {i} ({tok.RULE}) the raw text '
+                                        f'{tok.raw_text!r} does not describe the token (value {getattr(tok, "value", None)!r}, indent '
+                                        f'{getattr(tok, "indent", None)!r})', {'lf': lf, 'text': text, 'assignments': hist})
+                    break
+                if tok.RULE == 'BLOCK_COMMENT' and attr == 'value' and prev_indent is not None and tok.indent != prev_indent:
+                    ctx.monitor_failure('C02:doc-comment-reindented', f'value assignment on comment token {i} changed its indentation '
+                                        f'from {prev_indent!r} to {tok.indent!r}', {'lf': lf, 'text': text, 'assignments': hist})
+                    break
             where = {'lf': lf, 'text': text, 'assignments': hist}
             if 'C02' in prop_sigs:
                 if len(after) != len(toks) or any(a is not b for a, b in zip(after, toks)):
